@@ -1162,6 +1162,11 @@ def run(rep, repo, tier):
     for j in jobs:
         if not os.path.exists(j['src']):
             raise AnalysisBroken('unit %s missing' % j['src'])
+    from irlib import keep_all_but_new_helpers
+    for j in jobs[:4]:
+        # file-local helpers (e.g. a static function factored out of unwait_one/unwait_all) are folded into their callers,
+        # so that the lockset of the helper's body is the lockset at its call sites
+        j['inline'] = keep_all_but_new_helpers()
     mw, ml, ms, mf, mx = compile_many(jobs, repo)
     rep.units += ['igris/osinter/wait.cpp', 'igris/osinter/wait-linux.cpp', 'igris/sync/syslock_mutex.cpp',
                   'igris/sync/semaphore.cpp (fallback branch, -D__has_include(x)=0)',
